@@ -101,6 +101,7 @@ static sexp verif_ctl(sexp ctx, sexp self, sexp_sint_t n, sexp op, sexp arg) {
   if (!strcmp(s, "set-budget")) {
     if (sexp_fixnump(arg)) {
       vh_budget = sexp_unbox_fixnum(arg); vh_instrs = 0;
+      if (vh_budget) vh_last_budget_kind = 0;
       if (vh_time_budget_ns) {
         struct timespec ts;
         clock_gettime(CLOCK_PROCESS_CPUTIME_ID, &ts);   /* CPU time: independent of machine load */
@@ -110,6 +111,7 @@ static sexp verif_ctl(sexp ctx, sexp self, sexp_sint_t n, sexp op, sexp arg) {
     return SEXP_TRUE;
   }
   if (!strcmp(s, "instrs")) return sexp_make_fixnum(vh_instrs);
+  if (!strcmp(s, "budget-kind")) return sexp_make_fixnum(vh_last_budget_kind);
   if (!strcmp(s, "gc")) { sexp_gc(ctx, NULL); return SEXP_TRUE; }
   if (!strcmp(s, "who-refers")) {
     /* debugging aid: objects with a slot equal to the address given as a fixnum */
